@@ -31,7 +31,7 @@ enum Pending {
     Load { loc: usize, ord: O },
     Store { loc: usize, val: u64, ord: O },
     Fence { ord: O },
-    CellStore { remaining: Vec<usize>, vals: [u64; NCELLS] },
+    CellStore { remaining: Vec<usize>, vals: [u64; NCELLS], dst: usize },
     CellLoad { remaining: Vec<usize> },
     Finished,
 }
@@ -172,9 +172,15 @@ fn yield_access(p: Pending) -> (u64, usize) {
             else if is_acq(ord) { let vw = &mut g.views[tid]; vw.cur = vw.cur.max(vw.acq); }
             g.emit(tid, format!("F:{}", ord_short(ord)));
         }
-        Pending::CellStore { remaining, vals } => {
+        Pending::CellStore { remaining, vals, dst } => {
             let c = remaining[pc.min(remaining.len() - 1)];
             g.store(2 + c, vals[c], O::Relaxed);
+            // keep the real mapping in step with the modelled memory, cell by cell (cell 6: only the
+            // four status bytes; the upper half is struct padding)
+            unsafe {
+                if c == 6 { std::ptr::write_volatile((dst + 48) as *mut u32, vals[6] as u32); }
+                else { std::ptr::write_volatile((dst + 8 * c) as *mut u64, vals[c]); }
+            }
             g.emit(tid, format!("S:c{}:N:{}", c, vals[c]));
             out.1 = c;
         }
@@ -216,14 +222,14 @@ fn h_fence(ord: O) {
     { let mut g = eng.mx.lock().unwrap(); if g.is_writer[tid] { g.roles.w_fence.get_or_insert(ord); } else { g.roles.r_fence.get_or_insert(ord); } }
     yield_access(Pending::Fence { ord });
 }
-fn h_data_write(_dst: usize, src: &[u8]) {
+fn h_data_write(dst: usize, src: &[u8]) {
     if !in_engine() { return; }
     let mut vals = [0u64; NCELLS];
     for i in 0..NCELLS { vals[i] = u64::from_ne_bytes(src[8 * i..8 * i + 8].try_into().unwrap()); }
     vals[6] &= 0xffff_ffff; // status; the upper four bytes are padding
     let mut remaining: Vec<usize> = (0..NCELLS).collect();
     while !remaining.is_empty() {
-        let (_, c) = yield_access(Pending::CellStore { remaining: remaining.clone(), vals });
+        let (_, c) = yield_access(Pending::CellStore { remaining: remaining.clone(), vals, dst });
         remaining.retain(|&x| x != c);
     }
 }
@@ -580,13 +586,24 @@ static SOLO_CELL_COPIES: AtomicU64 = AtomicU64::new(0);
 static SOLO_FENCES: AtomicU64 = AtomicU64::new(0);
 const SOLO_LIMIT: u64 = 20_000_000;
 
+static SOLO_MODE: AtomicU64 = AtomicU64::new(0);
+
 fn solo_load(addr: usize, _w: u8, _o: O, real: u64) -> u64 {
     match addr & 0xfff {
         12 => { SOLO_VER_LOADS.fetch_add(1, O::Relaxed); 1 }
         14 => {
             let k = SOLO_GEN_LOADS.fetch_add(1, O::Relaxed);
             if k > SOLO_LIMIT { std::panic::panic_any("unbounded"); }
-            (SOLO_G0.load(O::Relaxed) + 2 * (k % SOLO_PERIOD.load(O::Relaxed))) & 0xffff
+            let g0 = SOLO_G0.load(O::Relaxed);
+            match SOLO_MODE.load(O::Relaxed) {
+                // a writer that dies right after the reader's first load: odd for ever
+                1 => if k == 0 { g0 } else { (g0 + 1) & 0xffff },
+                // frozen odd (second call of a scenario)
+                2 => (g0 + 1) & 0xffff,
+                // alternating: odd (update in flight), then a new even value, then odd again, …
+                3 => if k == 0 { g0 } else if k % 2 == 1 { (g0 + 1) & 0xffff } else { (g0 + 2 * ((k / 2) % SOLO_PERIOD.load(O::Relaxed) + 1)) & 0xffff },
+                _ => (g0 + 2 * (k % SOLO_PERIOD.load(O::Relaxed))) & 0xffff,
+            }
         }
         _ => real,
     }
@@ -594,25 +611,40 @@ fn solo_load(addr: usize, _w: u8, _o: O, real: u64) -> u64 {
 fn solo_store(_a: usize, _w: u8, _o: O, _v: u64) {}
 fn solo_fence(_o: O) { SOLO_FENCES.fetch_add(1, O::Relaxed); }
 fn solo_data_write(_d: usize, _s: &[u8]) {}
-fn solo_data_read(_s: usize, out: &mut [u8]) { SOLO_CELL_COPIES.fetch_add(1, O::Relaxed); for b in out.iter_mut() { *b = 0; } }
+/// every copy returns recognisable, never-published cell values (k-th copy: 1000+k in every cell, status 1)
+fn solo_data_read(_s: usize, out: &mut [u8]) {
+    let k = SOLO_CELL_COPIES.fetch_add(1, O::Relaxed);
+    for i in 0..NCELLS { let v: u64 = if i == 6 { 1 } else { 1000 + (k % 1000) }; out[8 * i..8 * i + 8].copy_from_slice(&v.to_ne_bytes()); }
+}
 
+/// `slx <g0> <period> [<mode>]`: mode 0 = the generation changes at every load (cycle of `period` even
+/// values from g0), mode 1 = g0 at the first load, then odd for ever (writer died right after the reader
+/// started copying). After the first call returned, the generation is frozen odd and `snapshot()` is
+/// called AGAIN: it must answer from the reader's previous snapshot, which failed attempts must not
+/// have touched.
 pub fn exec_slx(toks: &[&str]) -> String {
     let g0: u64 = toks[1].parse().unwrap();
     let period: u64 = toks[2].parse::<u64>().unwrap().max(1);
+    let mode: u64 = toks.get(3).map(|t| t.parse().unwrap()).unwrap_or(0);
     let path = format!("{}/slx-shm", scratch_dir());
     write_initial_file(&path, &format!("valid {} 90", if g0 == 0 { 2 } else { g0 }));
     let c = CString::new(path).unwrap();
     let mut reader = match ShmReader::new(&c) { Ok(r) => r, Err(_) => return "open-failed".into() };
-    SOLO_G0.store(g0, O::Relaxed); SOLO_PERIOD.store(period, O::Relaxed);
+    SOLO_G0.store(g0, O::Relaxed); SOLO_PERIOD.store(period, O::Relaxed); SOLO_MODE.store(mode, O::Relaxed);
     for a in [&SOLO_GEN_LOADS, &SOLO_VER_LOADS, &SOLO_CELL_COPIES, &SOLO_FENCES] { a.store(0, O::Relaxed); }
     *verif_shim::HOOKS.write().unwrap() = Some(Hooks { load: solo_load, store: solo_store, fence: solo_fence, data_write: solo_data_write, data_read: solo_data_read, point: h_point });
+    let cells_txt = |c: [u64; NCELLS]| c.iter().map(|x| x.to_string()).collect::<Vec<_>>().join(",");
     let r = guarded(std::panic::AssertUnwindSafe(|| reader.snapshot().map(|c| cells_of_record(c))));
-    *verif_shim::HOOKS.write().unwrap() = None;
     let counts = format!("v{} g{} c{} f{}", SOLO_VER_LOADS.load(O::Relaxed), SOLO_GEN_LOADS.load(O::Relaxed), SOLO_CELL_COPIES.load(O::Relaxed), SOLO_FENCES.load(O::Relaxed));
+    // second call: generation frozen odd
+    SOLO_MODE.store(2, O::Relaxed);
+    let r2 = guarded(std::panic::AssertUnwindSafe(|| reader.snapshot().map(|c| cells_of_record(c))));
+    *verif_shim::HOOKS.write().unwrap() = None;
+    let second = match r2 { Ok(Ok(c)) => format!("then:{}", cells_txt(c)), Ok(Err(_)) => "then:err".into(), Err(()) => "then:unbounded".into() };
     match r {
-        Ok(Ok(c)) => format!("ok {} {}", c.iter().map(|x| x.to_string()).collect::<Vec<_>>().join(","), counts),
-        Ok(Err(_)) => format!("err {}", counts),
-        Err(()) => format!("unbounded {}", counts),
+        Ok(Ok(c)) => format!("ok {} {} {}", cells_txt(c), counts, second),
+        Ok(Err(_)) => format!("err {} {}", counts, second),
+        Err(()) => format!("unbounded {} {}", counts, second),
     }
 }
 
